@@ -1,0 +1,21 @@
+//go:build verif
+
+// Verification hooks (build tag "verif" only): accessor for the order in which the watched
+// resource types of a connection are pushed. No behaviour change; absent from normal builds.
+
+package xds
+
+import "istio.io/istio/pilot/pkg/model"
+
+// VerifC17WatchedResourcesByOrder runs Connection.watchedResourcesByOrder on a bare connection
+// around the given proxy and returns the type URLs in the resulting order.
+func VerifC17WatchedResourcesByOrder(proxy *model.Proxy) []string {
+	c := newConnection("verif-c17", nil)
+	c.proxy = proxy
+	ordered := c.watchedResourcesByOrder()
+	out := make([]string, 0, len(ordered))
+	for _, w := range ordered {
+		out = append(out, w.TypeUrl)
+	}
+	return out
+}
